@@ -484,7 +484,8 @@ func mutate(rg *rng, src string) (string, string) {
 		case 7:
 			return insertAt(rg, src, rg.pick([]string{"/(/ {\n}", "/[a-/ {\n}", "/a{2,1}/ {\n}", "/x**/ {\n}"})), "regexInvalid"
 		case 8:
-			return insertAt(rg, src, "/"+strings.Repeat("a", 1025)+"/ {\n}"), "regexTooLong"
+			// the limit is in bytes: over-long patterns of one-byte, two-byte and three-byte characters
+			return insertAt(rg, src, "/"+rg.pick([]string{strings.Repeat("a", 1025), strings.Repeat("é", 600), strings.Repeat("日", 400), strings.Repeat("a", 1000) + strings.Repeat("ü", 13)})+"/ {\n}"), "regexTooLong"
 		case 9, 10: // integer division or modulus by the literal zero
 			for _, d := range decls {
 				if (d.kind == "counter" || d.kind == "gauge") && !strings.Contains(d.rest, " by ") {
